@@ -38,8 +38,10 @@ fn answer<T>(r: pdf::error::Result<T>) -> String {
 }
 
 fn ideal_str(v: &Value) -> &'static str {
-    if v == "ok" { "ok" } else { "err:Recursive" }
+    if v == "ok" { "ok" } else { "err" }
 }
+/// the specification distinguishes a value from an error; which error variant the library uses is not part of the property
+fn coarse(a: &str) -> &str { if a.starts_with("err") { "err" } else { a } }
 
 fn seq_answer(bytes: &[u8], key: u64) -> String {
     match guarded(|| {
@@ -80,7 +82,7 @@ pub fn run(cases_path: &str, report_path: &str, _opts: &[String]) {
             for (j, k) in ls.iter().enumerate() {
                 let lone = seq_answer(&bytes, *k);
                 let want = ideal_str(&case["ideal"][t][j]);
-                if lone != want {
+                if coarse(&lone) != want {
                     fail(&mut rep, "lone-answer-differs-from-spec".into(), json!({"key": k, "spec": want, "lone": lone}));
                 }
             }
@@ -137,7 +139,7 @@ pub fn run(cases_path: &str, report_path: &str, _opts: &[String]) {
             for j in 0..ls.len() {
                 let want = ideal_str(&case["ideal"][t][j]);
                 let got = out.results[t].get(j).cloned().unwrap_or_else(|| "missing".into());
-                if got != want {
+                if coarse(&got) != want {
                     let class = if got.starts_with("panic") { "panic".to_string() } else { "answer".to_string() };
                     fail(&mut rep, class, json!({"thread": t + 1, "load": j + 1, "key": ls[j], "expected": want, "observed": got, "results": out.results, "matches_asbuilt": false}));
                 }
